@@ -163,8 +163,8 @@ class _Unroll(ast.NodeTransformer):
         self.generic_visit(node)
         if (isinstance(node.target, ast.Name) and isinstance(node.iter, (ast.List, ast.Tuple))
                 and node.iter.elts and not node.orelse and
-                all(isinstance(e, ast.Constant) and isinstance(e.value, str)
-                    for e in node.iter.elts)):
+                all(isinstance(e, ast.Constant) and isinstance(e.value, (str, int))
+                    and not isinstance(e.value, bool) for e in node.iter.elts)):
             # do not unroll loops that rebind the key or break out
             for sub in ast.walk(node):
                 if isinstance(sub, (ast.Break, ast.Continue)):
